@@ -73,7 +73,7 @@ def run(tier):
             if flavour == 'pytz' and I == 5:
                 chk.sample({'model_case': {k: cases[len(cases) // 2][k] for k in ('I', 'H', 'chg', 'vals', 'recorded', 'items', 'all', 'env')}})
     # ---- 2. real zones of the installed libraries: completeness against the library's own transition table, item fidelity
-    ranges = [(2000, 2038, 22), (2005, 2010, 24), (2000, 2006, 48), (2009, 2012, 36), (2000, 2004, 22)] if tier == 'quick' else [(2000, 2038, 22), (2005, 2010, 24), (2000, 2020, 6), (2010, 2038, 48), (2000, 2038, 1), (2000, 2006, 36), (2000, 2004, 22)]
+    ranges = [(2000, 2038, 22), (2005, 2010, 24), (2000, 2006, 48), (2009, 2012, 36), (2000, 2004, 22), (2004, 2006, 22)] if tier == 'quick' else [(2000, 2038, 22), (2005, 2010, 24), (2000, 2020, 6), (2010, 2038, 48), (2000, 2038, 1), (2000, 2006, 36), (2000, 2004, 22), (2004, 2006, 22), (2011, 2013, 12)]
     import pytz
     zones_by = {'pytz': sorted(pytz.all_timezones)}
     zl = os.path.join(common.REPO, 'tools', 'compare_pytz', 'zones.txt')
